@@ -280,7 +280,11 @@ func (k Keeper) CancelOrder(ctx sdk.Context, orderId uint64) error {
 		return sdkerrors.Wrapf(ordertypes.ErrorRefundOrder, "refund order failed")
 	}
 
-	k.RollbackMeta(ctx, order.DataId)
+	// only the model this order is the current (in-flight) order of is rolled back: an order can
+	// outlive the model it was created for, and the data id may have been stored again since
+	if metadata, found := k.GetMetadata(ctx, order.DataId); found && metadata.OrderId == orderId {
+		k.RollbackMeta(ctx, order.DataId)
+	}
 	k.order.RemoveOrder(ctx, orderId)
 
 	ctx.EventManager().EmitEvent(
@@ -292,15 +296,27 @@ func (k Keeper) CancelOrder(ctx sdk.Context, orderId uint64) error {
 	return nil
 }
 
-// CancelPendingFirstOrder handles the end of life of a model that was never stored: if its
-// first order is still pending (the gateway never handed it out) the order is cancelled and
-// refunded together with the model, instead of surviving it. Reports whether it did so.
+// CancelPendingFirstOrder handles the end of life of a model that was never stored: its first
+// order - still pending because the gateway never handed it out, or handed out but never
+// completed by any provider - is cancelled and refunded together with the model, instead of
+// surviving it. Reports whether it did so.
 func (k Keeper) CancelPendingFirstOrder(ctx sdk.Context, metadata types.Metadata) bool {
 	order, found := k.order.GetOrder(ctx, metadata.OrderId)
-	if !found || order.Status != ordertypes.OrderPending || order.DataId != metadata.DataId {
+	if !found || order.Status == ordertypes.OrderCompleted || order.DataId != metadata.DataId {
 		return false
 	}
-	return k.CancelOrder(ctx, order.Id) == nil
+	for _, shardId := range order.Shards {
+		if shard, found := k.order.GetShard(ctx, shardId); found && shard.Status == ordertypes.ShardCompleted {
+			return false
+		}
+	}
+	if k.CancelOrder(ctx, order.Id) != nil {
+		return false
+	}
+	for _, shardId := range order.Shards {
+		k.order.RemoveShard(ctx, shardId)
+	}
+	return true
 }
 
 func (k Keeper) RollbackMeta(ctx sdk.Context, dataId string) {
